@@ -306,7 +306,7 @@ static void run_one(void)
 int main(int argc, char **argv)
 {
     char *line = NULL, path[1024]; size_t cap = 0;
-    int provided, threads, skip = 0, pargc = 1;
+    int provided, threads, skip = 0, pargc = 1, alarm_s = 90;
     char *pargv_[2] = { argv[0], NULL }, **pargv = pargv_;
     parsec_arena_datatype_t *adt;
     long nexec = 0;
@@ -318,6 +318,7 @@ int main(int argc, char **argv)
     MPI_Comm_rank(MPI_COMM_WORLD, &myrank);
     threads = atoi(argv[3]);
     if( argc > 4 ) skip = atoi(argv[4]);
+    if( NULL != getenv("VERIF_ALARM") ) alarm_s = atoi(getenv("VERIF_ALARM"));
     in = fopen(argv[1], "r");
     snprintf(path, sizeof(path), "%s.%d", argv[2], myrank);
     vt_init(4096);
@@ -337,7 +338,7 @@ int main(int argc, char **argv)
         if( cur_index <= skip ) continue;
         if( 0 != parse_prog(line, &cur) ) { fprintf(stderr, "bad program line %ld\n", cur_index); return 3; }
         if( nexec++ ) vt_reset_marker();
-        alarm(90);
+        alarm(alarm_s);
         run_one();
         alarm(0);
         vt_dump();
